@@ -21,6 +21,7 @@ func c09Gen(r *kit.Rng) *histScenario {
 	caps := st.Caps()
 	caps.MaxNodes = r.Range(8, 22)
 	s := schema.Generate(r, caps, "m", true, false)
+	s.RpcMirror = r.Chance(1, 4)
 	o := st.GenOpts()
 	o.Density = r.Pick3(50, 70, 90)
 	init := model.Random(r, s, o.WithBudget(40), 0)
@@ -30,6 +31,9 @@ func c09Gen(r *kit.Rng) *histScenario {
 	n := r.Range(2, 15)
 	for i := 0; i < n; i++ {
 		op := g.next(cur)
+		if s.RpcMirror && len(op.At) == 0 && op.Kind == "upsert" && r.Chance(2, 3) {
+			op.ViaRpc = true
+		}
 		sc.Ops = append(sc.Ops, op)
 		sc.Into = append(sc.Into, false)
 		next := cur.Clone()
@@ -44,7 +48,7 @@ func init() {
 	cfg := histCfg{prop: "C09", checkCases: true}
 	Registry["C09"] = func() *Check {
 		return histCheck("C09", cfg, c09Gen, 4,
-			"one run = one seeded history of 2-15 upserts on a schema with several choices per container, choices nested in cases, shorthand cases, cases holding leaves, leaf-lists, containers and lists, choices inside list entries; payloads pick a case per choice at random so histories alternate A->B->A, switch nested choices while the outer stays, and switch inside one list entry only. Fault-free: after every upsert the store's Go value walked directly (never through Choose) holds data of at most one case per choice instance and equals the model everywhere; the library export lists only the selected case. Fault-injecting: the same history re-run with one error/refuse/error-after-effect at a seeded callback of one operation; after the failed call at most one case may hold data, nothing outside the operation's footprint changed, every leaf inside is old or new. distinct_nontrivial counts distinct event-log fingerprints among fault-free histories that changed the store and faulted histories whose fault fired",
+			"one run = one seeded history of 2-15 upserts on a schema with several choices per container, choices nested in cases, shorthand cases, cases holding leaves, leaf-lists, containers and lists, choices inside list entries; payloads pick a case per choice at random so histories alternate A->B->A, switch nested choices while the outer stays, and switch inside one list entry only; in a quarter of the schemas the same definitions are also the input of an rpc and root upserts are delivered as that rpc's input, whose handler upserts the input into the store. Fault-free: after every upsert the store's Go value walked directly (never through Choose) holds data of at most one case per choice instance and equals the model everywhere; the library export lists only the selected case. Fault-injecting: the same history re-run with one error/refuse/error-after-effect at a seeded callback of one operation; after the failed call at most one case may hold data, nothing outside the operation's footprint changed, every leaf inside is old or new. distinct_nontrivial counts distinct event-log fingerprints among fault-free histories that changed the store and faulted histories whose fault fired",
 			[]string{
 				"targets are the stores that implement case detection (map-backed Reflect, nodeutil.Node over maps and structs, control)",
 				"a failing Choose of the target is excluded from the one-case oracle: the editor documents that it proceeds without clearing (recorded under C12)",
